@@ -1,6 +1,7 @@
 ------------------------------- MODULE BigNat -------------------------------
 (* Natural numbers of arbitrary size as little-endian sequences of base-10^4    *)
-(* limbs (TLC integers are 32-bit).  Used to add decimal amounts exactly.       *)
+(* limbs (TLC integers are 32-bit).  Used to add, compare and multiply decimal   *)
+(* amounts exactly.                                                             *)
 EXTENDS Integers, Sequences
 Base == 10000
 Limb(s, k) == IF k <= Len(s) THEN s[k] ELSE 0
@@ -16,4 +17,38 @@ Norm(a) == IF a # << >> /\ a[Len(a)] = 0 THEN Norm(SubSeq(a, 1, Len(a) - 1)) ELS
 RECURSIVE SumAll(_)
 SumAll(sq) == IF sq = << >> THEN << >> ELSE Add(Head(sq), SumAll(Tail(sq)))
 Equal(a, b) == Norm(a) = Norm(b)
+\* ---- comparison, subtraction, multiplication (products of limbs stay below 2^31: 9999 * 9999 + carries)
+RECURSIVE CmpFrom(_, _, _)
+CmpFrom(a, b, k) == IF k = 0 THEN 0 ELSE IF a[k] < b[k] THEN -1 ELSE IF a[k] > b[k] THEN 1 ELSE CmpFrom(a, b, k - 1)
+Cmp(x, y) == LET a == Norm(x)  b == Norm(y) IN
+             IF Len(a) < Len(b) THEN -1 ELSE IF Len(a) > Len(b) THEN 1 ELSE CmpFrom(a, b, Len(a))
+Leq(x, y) == Cmp(x, y) <= 0
+RECURSIVE SubFrom(_, _, _, _)
+SubFrom(a, b, k, borrow) ==           \* a >= b
+  IF k > Len(a) THEN << >>
+  ELSE LET t == a[k] - Limb(b, k) - borrow
+       IN IF t < 0 THEN <<t + Base>> \o SubFrom(a, b, k + 1, 1) ELSE <<t>> \o SubFrom(a, b, k + 1, 0)
+Sub(a, b) == Norm(SubFrom(a, b, 1, 0))
+Dist(a, b) == IF Leq(b, a) THEN Sub(a, b) ELSE Sub(b, a)          \* |a - b|
+RECURSIVE MulLimbFrom(_, _, _, _)
+MulLimbFrom(b, x, k, carry) ==
+  IF k > Len(b) THEN (IF carry = 0 THEN << >> ELSE <<carry>>)
+  ELSE LET t == b[k] * x + carry IN <<t % Base>> \o MulLimbFrom(b, x, k + 1, t \div Base)
+RECURSIVE Mul(_, _)
+Mul(a, b) == IF a = << >> \/ b = << >> THEN << >>
+             ELSE Add(MulLimbFrom(b, a[1], 1, 0), IF Len(a) = 1 THEN << >> ELSE <<0>> \o Mul(Tail(a), b))
+FromInt(n) == IF n = 0 THEN << >> ELSE IF n < Base THEN <<n>> ELSE <<n % Base, n \div Base>>   \* n < 10^8
+ShiftLimbs(a, k) == IF Norm(a) = << >> THEN << >> ELSE [n \in 1..k |-> 0] \o a                \* a * Base^k
+\* ---- signed numbers [neg, mag]
+Zero == [neg |-> FALSE, mag |-> << >>]
+SNorm(x) == LET m == Norm(x.mag) IN [neg |-> x.neg /\ m # << >>, mag |-> m]
+SAdd(x, y) ==
+  IF x.neg = y.neg THEN SNorm([neg |-> x.neg, mag |-> Add(x.mag, y.mag)])
+  ELSE IF Leq(y.mag, x.mag) THEN SNorm([neg |-> x.neg, mag |-> Sub(x.mag, y.mag)])
+  ELSE SNorm([neg |-> y.neg, mag |-> Sub(y.mag, x.mag)])
+SNeg(x) == SNorm([neg |-> ~x.neg, mag |-> x.mag])
+SMul(x, y) == SNorm([neg |-> x.neg # y.neg, mag |-> Mul(x.mag, y.mag)])
+SDist(x, y) == SAdd(x, SNeg(y)).mag                                \* |x - y|
+RECURSIVE SSumAll(_)
+SSumAll(sq) == IF sq = << >> THEN Zero ELSE SAdd(Head(sq), SSumAll(Tail(sq)))
 =============================================================================
